@@ -60,6 +60,7 @@ type prover struct {
 	memo      map[ssa.Value]lin
 	depth     int
 	ipDone    bool
+	inConv    map[*ssa.Convert]bool
 	splitDone map[*ssa.Call]bool
 }
 
@@ -482,6 +483,12 @@ func (p *prover) lenOf(s ssa.Value) lin {
 		hi := lin{}
 		if x.High != nil {
 			hi = p.lin(x.High)
+		} else if pt, ok := x.X.Type().Underlying().(*types.Pointer); ok {
+			if at, ok := pt.Elem().Underlying().(*types.Array); ok {
+				hi = constLin(at.Len()) // slicing an array: its length is part of the type
+			} else {
+				hi = p.lenOf(x.X)
+			}
 		} else {
 			hi = p.lenOf(x.X)
 		}
@@ -636,6 +643,12 @@ func (p *prover) lin0(v ssa.Value) lin {
 			l := p.lenOf(x.Call.Args[0])
 			if l.ok && l.neg == "" {
 				p.add(dfact{a, l.pos, l.c - 1, "Index < len"})
+				if id == "bytes.Index" || id == "strings.Index" {
+					// a match of sep at i lies inside s: i + len(sep) <= len(s)
+					if sl := p.lenOf(x.Call.Args[1]); sl.ok && sl.pos == "" && sl.neg == "" && sl.c >= 1 {
+						p.add(dfact{a, l.pos, l.c - sl.c, "Index + len(sep) <= len"})
+					}
+				}
 			}
 			p.add(dfact{"", a, 1, "Index >= -1"})
 		}
@@ -767,6 +780,18 @@ func (p *prover) lin0(v ssa.Value) lin {
 			if lo, ok := p.shortest(p.global, "", src.pos); ok && src.c-lo >= 0 {
 				nonNeg = true
 			}
+		}
+		if !nonNeg && src.ok && x.Block() != nil && !p.inConv[x] {
+			// non-negative where the conversion executes (a dominating test such as `if i >= 0`): the value of the
+			// conversion exists only there, so the relation holds wherever it is used
+			if p.inConv == nil {
+				p.inConv = map[*ssa.Convert]bool{}
+			}
+			p.inConv[x] = true
+			if p.entails0(x.Block(), negLin(src), 0, nil) {
+				nonNeg = true
+			}
+			delete(p.inConv, x)
 		}
 		if src.ok && src.neg == "" && nonNeg {
 			// a narrowing conversion of a non-negative value never yields more than the value
